@@ -38,7 +38,8 @@ def expand(seval, exprs, parent=None):
                 save_env = seval.environment
                 seval.environment = macro_env
                 expanded = seval.eval(expr.expression)
-                expanded.line_info = exprs[0].line_info
+                if isinstance(expanded, (WList, Symbol)):
+                    expanded.line_info = exprs[0].line_info
                 expanded = expand(seval, expanded, parent)
 
                 seval.environment = save_env
